@@ -4,8 +4,11 @@
    abstract scores) and SmfRef (reference semantics of SMF) for the RMI / GMF wrappings.
    Per execution: Init, then any number of  <source> [Select] Load [Select] Play  groups, where <source> is a Mus, Xmi
    or Smf record (the abstract input + the bytes the harness produced from it).
-   Every predicate is evaluated here; the harness only records what the library did.                                *)
-EXTENDS SmfRef, MusRef, XmiRef, Json, IOUtils, Sequences
+   Every predicate is evaluated here; the harness only records what the library did.
+   Leg (C), refinement (drift only, never a verdict): a Cvt record holds the SMF that the REAL converter functions
+   (Convert_mus2midi / Convert_xmi2midi_multi, called directly on the encoded bytes) produced, parsed into abstract form;
+   it is compared with the implementation models Mus2Mid / Xmi2Mid applied to the same bytes: first difference -> `drift`. *)
+EXTENDS SmfRef, MusRef, XmiRef, Mus2Mid, Xmi2Mid, Json, IOUtils, Sequences
 
 T == ndJsonDeserialize(IOEnv.TRACE)
 MaxFails == 12
@@ -19,7 +22,8 @@ Cnt0 == [steps |-> 0, execs |-> 0, encoders |-> 0,
          musOddPitch |-> 0, musMemVol |-> 0, musPerc |-> 0, musLongDelay |-> 0, musChans |-> 0,
          xmiLoads |-> 0, xmiPlays |-> 0, xmiGroups |-> 0, xmiEvents |-> 0, xmiNoteOffs |-> 0, xmiTimed |-> 0, xmiMulti |-> 0,
          xmiSelected |-> 0, xmiReselect |-> 0, xmiSongCounts |-> 0,
-         contPlays |-> 0, contSame |-> 0, contEvents |-> 0, rmi |-> 0, gmf |-> 0, skipped |-> 0]
+         contPlays |-> 0, contSame |-> 0, contEvents |-> 0, rmi |-> 0, gmf |-> 0, skipped |-> 0,
+         refined |-> 0, drifted |-> 0, refskip |-> 0, refEvents |-> 0, refMus |-> 0, refXmi |-> 0, refSongs |-> 0, refRejected |-> 0]
 Init == l = 1 /\ src = Src0 /\ sel = 0 /\ prev = Prev0 /\ fails = <<>> /\ cnt = Cnt0 /\ exec = 0 /\ drift = <<>>
 
 Tag(S, ev, d) == { [p |-> "C17", w |-> x, l |-> l, x |-> exec, e |-> ev.e, d |-> d] : x \in S }
@@ -137,16 +141,31 @@ SmfPlayFails(ev, s) ==
 StepInit(ev) == /\ src' = Src0 /\ sel' = 0 /\ prev' = Prev0 /\ exec' = exec + 1 /\ UNCHANGED <<fails, drift>>
                 /\ cnt' = [cnt EXCEPT !.execs = @ + 1]
 \* everything derived from the source is computed once here (TLC does not memoise operator applications)
+MkMusSrc(sc, bytes) ==
+  LET wf == WellFormed(sc)
+      its == IF wf THEN MusItems(sc) ELSE <<>>
+      last == sc[Len(sc)]
+  IN [kind |-> "mus", loaded |-> FALSE, wf |-> wf, items |-> its, ticks |-> TicksOf(its),
+      extras |-> IF wf THEN MusExtras(sc) ELSE <<>>, sys |-> HasSys(sc), endTick |-> EndTick(sc),
+      endFresh |-> last.ch # 15 /\ \A j \in 1..(Len(sc) - 1) : sc[j].ch # last.ch,
+      chans |-> Cardinality({ sc[i].ch : i \in DOMAIN sc }), bytes |-> bytes]
+\* malformed variants (only converted, never loaded): "cut" drops the last k score bytes and patches scoreLen, "poke" overwrites
+\* score bytes; both exactly as harness/drive_conv.cpp does it
+RECURSIVE PokeAll(_, _, _, _)
+PokeAll(b, pk, i, start) == IF i > Len(pk) THEN b ELSE PokeAll([b EXCEPT ![start + (pk[i][1] % (Len(b) - start)) + 1] = pk[i][2]], pk, i + 1, start)
+MusMangle(b, ev) ==
+  LET start == 16 + 2 * Len(ev.ins)
+      slen == Len(b) - start
+      cut == IF "cut" \in DOMAIN ev /\ ev.cut > 0 /\ ev.cut <= slen THEN ev.cut ELSE 0
+      b1 == IF cut = 0 THEN b ELSE [i \in 1..(Len(b) - cut) |-> IF i = 5 THEN (slen - cut) % 256 ELSE IF i = 6 THEN (slen - cut) \div 256 ELSE b[i]]
+  IN IF "poke" \in DOMAIN ev /\ Len(b1) > start THEN PokeAll(b1, ev.poke, 1, start) ELSE b1
+Mangled(ev) == ("cut" \in DOMAIN ev /\ ev.cut > 0) \/ ("poke" \in DOMAIN ev /\ ev.poke # <<>>)
 StepMus(ev) ==
   LET sc == ev.ev
-      wf == WellFormed(sc)
-      its == IF wf THEN MusItems(sc) ELSE <<>>
-      enc == ev.bytes = <<>> \/ ev.bytes = MusBytes(sc, ev.chans, ev.ins)
-      last == sc[Len(sc)]
-  IN /\ src' = [kind |-> "mus", loaded |-> FALSE, wf |-> wf, items |-> its, ticks |-> TicksOf(its),
-                extras |-> IF wf THEN MusExtras(sc) ELSE <<>>, sys |-> HasSys(sc), endTick |-> EndTick(sc),
-                endFresh |-> last.ch # 15 /\ \A j \in 1..(Len(sc) - 1) : sc[j].ch # last.ch,
-                chans |-> Cardinality({ sc[i].ch : i \in DOMAIN sc })]
+      wf == WellFormed(sc) /\ ~Mangled(ev)
+      mb == MusMangle(MusBytes(sc, ev.chans, ev.ins), ev)
+      enc == ev.bytes = <<>> \/ ev.bytes = mb
+  IN /\ src' = [MkMusSrc(sc, mb) EXCEPT !.wf = wf]
      /\ fails' = AddFails(Tag(Lbl(enc, "harness-encoder"), ev, "MUS bytes differ from MusRef!MusBytes"))
      /\ cnt' = [cnt EXCEPT !.steps = @ + 1, !.encoders = @ + (IF ev.bytes # <<>> THEN 1 ELSE 0), !.skipped = @ + (IF wf THEN 0 ELSE 1),
                            !.musSys = @ + (IF HasSys(sc) THEN 1 ELSE 0), !.musOddPitch = @ + (IF HasOddPitch(sc) THEN 1 ELSE 0),
@@ -154,13 +173,18 @@ StepMus(ev) ==
                            !.musPerc = @ + (IF \E i \in DOMAIN sc : sc[i].ch = 15 /\ sc[i].k # "end" THEN 1 ELSE 0),
                            !.musLongDelay = @ + Cardinality({ i \in DOMAIN sc : sc[i].dl >= 128 })]
      /\ UNCHANGED <<sel, prev, exec, drift>>
+MkXmiSrc(songs, bytes) ==
+  LET f == [songs |-> songs]
+      wf == XmiWellFormed(f)
+      refs == [s \in DOMAIN songs |-> LET its == IF wf THEN XmiItems(songs[s]) ELSE <<>> IN
+                 [items |-> its, ticks |-> TicksOf(its), tempo |-> CarriesTempo(songs[s]), us |-> TempoUs(songs[s])]] \o <<>>
+  IN [kind |-> "xmi", loaded |-> FALSE, wf |-> wf, refs |-> refs, n |-> Len(songs), bytes |-> bytes]
 StepXmi(ev) ==
   LET f == [songs |-> ev.songs]
       wf == XmiWellFormed(f)
-      enc == ev.bytes = <<>> \/ ev.bytes = XmiBytes(f)
-      refs == [s \in DOMAIN ev.songs |-> LET its == IF wf THEN XmiItems(ev.songs[s]) ELSE <<>> IN
-                 [items |-> its, ticks |-> TicksOf(its), tempo |-> CarriesTempo(ev.songs[s]), us |-> TempoUs(ev.songs[s])]] \o <<>>
-  IN /\ src' = [kind |-> "xmi", loaded |-> FALSE, wf |-> wf, refs |-> refs, n |-> Len(ev.songs)]
+      xb == XmiBytes(f)
+      enc == ev.bytes = <<>> \/ ev.bytes = xb
+  IN /\ src' = MkXmiSrc(ev.songs, xb)
      /\ fails' = AddFails(Tag(Lbl(enc, "harness-encoder"), ev, "XMI bytes differ from XmiRef!XmiBytes"))
      /\ cnt' = [cnt EXCEPT !.steps = @ + 1, !.encoders = @ + (IF ev.bytes # <<>> THEN 1 ELSE 0), !.skipped = @ + (IF wf THEN 0 ELSE 1),
                            !.xmiMulti = @ + (IF Len(ev.songs) > 1 THEN 1 ELSE 0)]
@@ -220,6 +244,49 @@ StepPlay(ev) ==
                    !.contSame = @ + (IF wrapped /\ prev.valid /\ prev.key = SongKey(src) THEN 1 ELSE 0),
                    !.rmi = @ + (IF wrapped /\ src.cont = "rmi" THEN 1 ELSE 0), !.gmf = @ + (IF wrapped /\ src.cont = "gmf" THEN 1 ELSE 0)]
      /\ UNCHANGED <<src, sel, exec, drift>>
+---------------------------------------------------------------------------
+(* leg (C): the recorded output of the real converter against the implementation models *)
+CvtModel(s) == IF s.kind = "mus" THEN LET o == Mus2Mid(s.bytes, 0) IN IF o.ok THEN [ok |-> TRUE, songs |-> << o >>] ELSE o
+               ELSE Xmi2Mid(s.bytes)
+FirstDiff(a, b) == CHOOSE i \in 1..(Min(Len(a), Len(b)) + 1) :
+                     (i > Len(a) \/ i > Len(b) \/ a[i] # b[i]) /\ \A j \in 1..(i - 1) : a[j] = b[j]
+At(s, i) == IF i <= Len(s) THEN s[i] ELSE "none"
+\* "" when the recorded track equals the model's (a capped record is compared over the recorded prefix)
+TrackDiff(mt, rt) ==
+  LET n == Len(rt.ev)
+      mev == IF rt.trunc = 1 THEN SubSeq(mt.ev, 1, Min(n, Len(mt.ev))) ELSE mt.ev
+      mrs == IF rt.trunc = 1 THEN SubSeq(mt.rs, 1, Min(n, Len(mt.rs))) ELSE mt.rs
+  IN IF mev # rt.ev THEN LET i == FirstDiff(mev, rt.ev) IN ToString(<<"event", i, "model", At(mev, i), "real", At(rt.ev, i)>>)
+     ELSE IF mrs # rt.rs THEN LET i == FirstDiff(mrs, rt.rs) IN ToString(<<"running-status-flag", i, "model", At(mrs, i), "real", At(rt.rs, i)>>)
+     ELSE IF mt.len # rt.len THEN ToString(<<"track-length", "model", mt.len, "real", rt.len>>)
+     ELSE IF rt.clean # 1 THEN ToString(<<"the recorded track does not parse cleanly", rt.clean>>)
+     ELSE ""
+SongDiff(ms, rs) ==
+  IF <<ms.fmt, ms.ntr, ms.div>> # <<rs.fmt, rs.ntr, rs.div>> THEN ToString(<<"header fmt/tracks/division", "model", <<ms.fmt, ms.ntr, ms.div>>, "real", <<rs.fmt, rs.ntr, rs.div>>>>)
+  ELSE IF ms.tempo # rs.tempo THEN ToString(<<"tempo bytes", "model", ms.tempo, "real", rs.tempo>>)
+  ELSE IF Len(ms.tracks) # Len(rs.tracks) THEN ToString(<<"track chunks", "model", Len(ms.tracks), "real", Len(rs.tracks)>>)
+  ELSE IF rs.tail # 0 THEN ToString(<<"bytes after the last track chunk", rs.tail>>)
+  ELSE LET D == { t \in DOMAIN ms.tracks : TrackDiff(ms.tracks[t], rs.tracks[t]) # "" } IN
+       IF D = {} THEN "" ELSE LET t == CHOOSE x \in D : \A y \in D : x <= y IN ToString(<<"track", t>>) \o " " \o TrackDiff(ms.tracks[t], rs.tracks[t])
+CvtDiff(m, ev) ==
+  IF m.ok # (ev.r = 0) THEN ToString(<<"result", "model", IF m.ok THEN "converted" ELSE "rejected", "real", ev.r>>)
+  ELSE IF ~m.ok THEN ""
+  ELSE IF Len(m.songs) # Len(ev.songs) THEN ToString(<<"songs", "model", Len(m.songs), "real", Len(ev.songs)>>)
+  ELSE LET D == { s \in DOMAIN m.songs : SongDiff(m.songs[s], ev.songs[s]) # "" } IN
+       IF D = {} THEN "" ELSE LET s == CHOOSE x \in D : \A y \in D : x <= y IN ToString(<<"song", s - 1>>) \o " " \o SongDiff(m.songs[s], ev.songs[s])
+StepCvt(ev) ==
+  LET go == src.kind \in {"mus", "xmi"} /\ "bytes" \in DOMAIN src /\ ev.kind = src.kind
+      m == IF go THEN CvtModel(src) ELSE [ok |-> FALSE, unmodelled |-> TRUE]
+      skip == ~go \/ "unmodelled" \in DOMAIN m
+      d == IF skip THEN "" ELSE CvtDiff(m, ev)
+      nev == IF skip \/ ~m.ok THEN 0 ELSE SumSeq([s \in DOMAIN m.songs |-> Len(m.songs[s].tracks[1].ev)])
+  IN /\ drift' = IF d # "" /\ Len(drift) < 4 THEN Append(drift, [l |-> l, x |-> exec, e |-> "Cvt-" \o src.kind, d |-> d]) ELSE drift
+     /\ cnt' = [cnt EXCEPT !.steps = @ + 1, !.refined = @ + (IF skip THEN 0 ELSE 1), !.refskip = @ + (IF skip THEN 1 ELSE 0),
+                           !.drifted = @ + (IF d # "" THEN 1 ELSE 0), !.refEvents = @ + nev,
+                           !.refMus = @ + (IF ~skip /\ src.kind = "mus" THEN 1 ELSE 0), !.refXmi = @ + (IF ~skip /\ src.kind = "xmi" THEN 1 ELSE 0),
+                           !.refSongs = @ + (IF skip \/ ~m.ok THEN 0 ELSE Len(m.songs)),
+                           !.refRejected = @ + (IF ~skip /\ ~m.ok /\ ev.r # 0 THEN 1 ELSE 0)]
+     /\ UNCHANGED <<src, sel, prev, exec, fails>>
 StepOther(ev) == UNCHANGED <<src, sel, prev, exec, fails, drift>> /\ cnt' = [cnt EXCEPT !.steps = @ + 1]
 
 Next ==
@@ -232,6 +299,7 @@ Next ==
           [] ev.e = "Select" -> StepSelect(ev)
           [] ev.e = "Load" -> StepLoad(ev)
           [] ev.e = "Play" -> StepPlay(ev)
+          [] ev.e = "Cvt" -> StepCvt(ev)
           [] ev.e = "End" -> UNCHANGED <<src, sel, prev, exec, fails, cnt, drift>>
           [] OTHER -> StepOther(ev)
   \/ /\ l = Len(T) + 1 /\ l' = l + 1
